@@ -169,7 +169,8 @@ pub enum Op {
     Misc { which: u8, a: Dec, b: Dec, x: u64, s: String },
 }
 
-pub const MISC_NAMES: [&str; 16] = [
+#[cfg(feature = "allfeatures")]
+pub const MISC_NAMES: [&str; 24] = [
     "from_f64",
     "from_f32",
     "from_str",
@@ -186,6 +187,39 @@ pub const MISC_NAMES: [&str; 16] = [
     "ratio_magnitude",
     "debug",
     "from_int",
+    "int_arith",
+    "int_checked",
+    "assign_ops",
+    "predicates_string",
+    "from_str_variants",
+    "serde_json",
+    "num_traits",
+    "rkyv",
+];
+
+#[cfg(not(feature = "allfeatures"))]
+pub const MISC_NAMES: [&str; 21] = [
+    "from_f64",
+    "from_f32",
+    "from_str",
+    "to_f64",
+    "to_f32",
+    "to_int",
+    "add",
+    "sub",
+    "checked_add_sub",
+    "rem",
+    "checked_rem",
+    "unary",
+    "cmp_hash",
+    "ratio_magnitude",
+    "debug",
+    "from_int",
+    "int_arith",
+    "int_checked",
+    "assign_ops",
+    "predicates_string",
+    "from_str_variants",
 ];
 
 pub const N_FMT_VARIANTS: u8 = 10;
@@ -682,7 +716,113 @@ fn exec_misc(which: u8, a: Dec, b: Dec, x: u64, s: &str) -> Outcome {
         }
         13 => format!("{:?} {}", da.as_integer_ratio(), da.magnitude()),
         14 => format!("{:?} {:?}", da, db),
-        _ => show(Decimal::from(a.0 as i64)) + " " + &show(Decimal::from(b.1)),
+        15 => show(Decimal::from(a.0 as i64)) + " " + &show(Decimal::from(b.1)),
+        16 => {
+            // Decimal (op) int and int (op) Decimal, the exact operators
+            let i = (b.0 % 1000) as i32;
+            let j = (b.1 as u64) + 2;
+            format!(
+                "{} {} {} {} {} {}",
+                show(da + i),
+                show(i - da),
+                show(da * i),
+                show(j * da),
+                show(da % j),
+                da < i
+            )
+        }
+        17 => {
+            use fpdec::{CheckedAdd as CA, CheckedMul as CM, CheckedRem as CR, CheckedSub as CS};
+            let i = (b.0 % 1000) as i64;
+            format!(
+                "{:?} {:?} {:?} {:?} {:?}",
+                CA::checked_add(da, i).map(show),
+                CS::checked_sub(i, da).map(show),
+                CM::checked_mul(da, i).map(show),
+                CM::checked_mul(i, da).map(show),
+                CR::checked_rem(da, if i == 0 { 7 } else { i }).map(show)
+            )
+        }
+        18 => {
+            let mut z = da;
+            z += db;
+            let mut y = da;
+            y -= db;
+            let mut w = da;
+            w %= db;
+            let mut v = da;
+            v *= 3_i32;
+            let mut u = da;
+            u += 5_u8;
+            format!("{} {} {} {} {}", show(z), show(y), show(w), show(v), show(u))
+        }
+        19 => {
+            let st: String = da.into();
+            format!(
+                "{} {} {} {} {} {:?}",
+                da.eq_zero(),
+                da.eq_one(),
+                da.is_negative(),
+                da.is_positive(),
+                st,
+                Decimal::try_from(b.0.unsigned_abs()).map(show).map_err(|e| format!("{:?}", e))
+            )
+        }
+        20 => format!(
+            "{:?} {:?}",
+            Decimal::try_from(s).map(show).map_err(|e| format!("{:?}", e)),
+            Decimal::try_from(s.to_string()).map(show).map_err(|e| format!("{:?}", e))
+        ),
+        #[cfg(feature = "allfeatures")]
+        21 => {
+            let js = serde_json::to_string(&da).map_err(|e| e.to_string());
+            let back = js
+                .clone()
+                .and_then(|j| serde_json::from_str::<Decimal>(&j).map_err(|e| e.to_string()))
+                .map(show);
+            let parsed = serde_json::from_str::<Decimal>(&format!("{:?}", s))
+                .map(show)
+                .map_err(|_| "err".to_string());
+            format!("{:?} {:?} {:?}", js, back, parsed)
+        }
+        #[cfg(feature = "allfeatures")]
+        22 => {
+            use num_traits::{Num, One, Signed, Zero};
+            format!(
+                "{} {} {} {} {} {} {} {:?} {:?}",
+                show(<Decimal as Zero>::zero()),
+                Zero::is_zero(&da),
+                show(<Decimal as One>::one()),
+                One::is_one(&da),
+                show(Signed::abs(&da)),
+                show(Signed::abs_sub(&da, &db)),
+                show(Signed::signum(&da)),
+                <Decimal as Num>::from_str_radix(s, 10).map(show).map_err(|e| format!("{:?}", e)),
+                <Decimal as Num>::from_str_radix(s, 16).map(show).map_err(|e| format!("{:?}", e))
+            )
+        }
+        #[cfg(feature = "allfeatures")]
+        23 => {
+            use rkyv::Deserialize;
+            let bytes = rkyv::to_bytes::<_, 256>(&da).map_err(|e| e.to_string());
+            match bytes {
+                Ok(bytes) => match rkyv::check_archived_root::<Decimal>(&bytes[..]) {
+                    Ok(arch) => {
+                        let back: Decimal = arch.deserialize(&mut rkyv::Infallible).unwrap();
+                        format!(
+                            "{} {} {} {:?}",
+                            show(back),
+                            *arch == da,
+                            da == *arch,
+                            arch.partial_cmp(&db).is_some()
+                        )
+                    }
+                    Err(_) => "check-error".to_string(),
+                },
+                Err(e) => e,
+            }
+        }
+        _ => "n/a".to_string(),
     };
     Outcome::Text { out: txt, ok: true }
 }
